@@ -2,7 +2,7 @@
    (ModelFixed.v): every clause at full strength.  Used by checks/C14.py when the
    tree under test shows the patched ReadFrom behaviour. *)
 From FoxBase Require Import Bytes.
-From FoxC14 Require Import Types Spec Model ModelFixed Lemmas Invariant Effects Corr ProofsFixed ProofsCur Examples.
+From FoxC14 Require Import Types Spec Model ModelFixed Lemmas Invariant Effects Corr ProofsFixed ProofsCur Examples Nested ProofsNested.
 From Coq Require Import List ZArith.
 Import ListNotations.
 Open Scope Z_scope.
@@ -71,6 +71,20 @@ Theorem source_chunks_complete : forall s, concat (chunks_of s) = s_data s.
 Proof. exact chunks_of_concat. Qed.
 Print Assumptions source_chunks_complete.
 
+(* ---- a router mounted in another router (WrapH(child), child.ServeHTTP(c.Writer(), r)): the child's recorder
+   is stacked on the PARENT's recorder (Nested.v).  After ANY interleaving of calls by the parent's handlers (on
+   the parent's Context) and by the mounted router's handlers (on the child's Context), the PARENT's Status /
+   Size / Written reflect what reached the real writer, which saw at most one final status and none after
+   accepted body bytes ---- *)
+Theorem nested_recorder_transparent : forall P cfg (cs : list (who * call)),
+  let parent := snd (fst (nrun_fixed P cfg cs)) in
+  status_ok (lg (snd parent)) (rec_answers (fst parent)) /\
+  size_ok (lg (snd parent)) (rec_answers (fst parent)) /\
+  written_ok (lg (snd parent)) (rec_answers (fst parent)) /\
+  header_discipline (lg (snd parent)).
+Proof. exact fixed_nested_recorder_transparent. Qed.
+Print Assumptions nested_recorder_transparent.
+
 (* ---- non-vacuity ---- *)
 Example contract_satisfiable : forall b cf, io_writer_contract (pol b cf).
 Proof. exact pol_contract. Qed.
@@ -94,3 +108,9 @@ Example stream_helper :
   let '(st', r) := step_fixed (pol None false) ex_all st_init (CStream 203 (S2B "text/c14") (mksrc (S2B "stream") false 4 false)) in
   lg (snd st') = [EvHeader 203; EvBody (S2B "stre"); EvBody (S2B "am")] /\ r_err r = ENil.
 Proof. exact ex_helper. Qed.
+Example nested_run :
+  let cs := [(Child, CString 201 (S2B "created")); (Parent, CWriteHeader 500)] in
+  let parent := snd (fst (nrun_fixed (pol None false) (mkcfg true true FBoth true true true true true) cs)) in
+  rec_answers (fst parent) = mkans 201 true 7 /\
+  lg (snd parent) = [EvHeader 201; EvBody (S2B "created")].
+Proof. exact nested_created_then_500. Qed.
